@@ -33,7 +33,8 @@ disagreement that was repaired in the model):
 * an anchor ignores anonymous nodes (`Anchor.loose`), except that after the unnamed wildcard `_`
   nothing may be skipped (`Anchor.strict`, `seeking_immediate_match`);
 * when an optional/starred child pattern matches zero nodes the anchor of the next child pattern
-  is waived (`waived`); a trailing anchor then applies to the last node that did match (`EndOk`);
+  is waived (`waived`); a trailing anchor then applies to the last node that did match (`EndOk`),
+  and to nothing when no child pattern matched a node at all;
 * repetitions of a quantified child need not be adjacent (order-preserving selection);
 * capture order inside a match is irrelevant (bindings are compared sorted).
 Compile verdicts and the comparison with the real cursor are judged (Judge.lean, Drivers/C05.lean).
@@ -136,7 +137,7 @@ mutual
     | .node t neg kids last, n, b => by
       unfold matchPat SatPat
       by_cases h : (testNode t n.info && negOk neg n) = true
-      · rw [if_pos h, mem_matchItems_iff kids last false n.kids b]
+      · rw [if_pos h, mem_matchItems_iff kids last false false n.kids b]
         simp only [Bool.and_eq_true] at h
         simp [h.1, h.2]
       · rw [if_neg h]
@@ -166,16 +167,16 @@ mutual
         simp only [List.not_mem_nil, false_iff]
         intro ⟨h1, _⟩
         exact h h1
-  theorem mem_matchItems_iff : ∀ (items : List Item) (last w : Bool) (sibs : List VT) (b : Binding),
-      b ∈ matchItems items last w sibs ↔ SatItems items last w sibs b
-    | [], last, w, sibs, b => by
+  theorem mem_matchItems_iff : ∀ (items : List Item) (last w any : Bool) (sibs : List VT) (b : Binding),
+      b ∈ matchItems items last w any sibs ↔ SatItems items last w any sibs b
+    | [], last, w, any, sibs, b => by
       unfold matchItems SatItems
-      exact mem_endOk_iff last sibs b
-    | it :: rest, last, w, sibs, b => by
+      exact mem_endOk_iff (last && any) sibs b
+    | it :: rest, last, w, any, sibs, b => by
       unfold matchItems SatItems
       exact mem_seq_iff (fun c b => mem_matchItem_iff it c b)
-        (fun s b => mem_matchItems_iff rest last true s b)
-        (fun s b => mem_matchItems_iff rest last false s b) _ _ _
+        (fun s b => mem_matchItems_iff rest last true any s b)
+        (fun s b => mem_matchItems_iff rest last false true s b) _ _ _
 end
 
 /-- `matchAll_sound`: everything the enumeration returns satisfies the pattern at a node of the tree. -/
